@@ -1,6 +1,8 @@
 #!/bin/bash
 # false-alarm sweep on the current tree: every property under several VERIF_SEEDs (evidence to /tmp)
 cd /verif/sim
+if [ -n "$(git -C /repo status --porcelain --untracked-files=no)" ]; then echo '/repo is dirty'; exit 2; fi
+cargo build --offline --release >/dev/null 2>&1 || exit 2; cargo build --offline --profile relcheck >/dev/null 2>&1 || exit 2
 for seed in "$@"; do
   for p in C01 C02 C03 C11 C14 C16 C18 C19; do
     for bin in release relcheck; do
